@@ -130,6 +130,19 @@ Theorem sphere_pot_linear_in_moment : forall (radii sigmas : list R) (a b : R) (
 Proof. exact sphere_pot_linear. Qed.
 Print Assumptions sphere_pot_linear_in_moment.
 
+(* the potential oracle evaluates on the outer surface in the direction of r: |r| does not matter *)
+Theorem sphere_pot_direction_only : forall (radii sigmas : list R) (q r0 r : rv) (nterms : nat) (s : R),
+  0 < s -> rnorm r <> 0 ->
+  sphere_pot ROps_c01 radii sigmas q r0 (rscale s r) nterms = sphere_pot ROps_c01 radii sigmas q r0 r nterms.
+Proof. exact sphere_pot_direction. Qed.
+Print Assumptions sphere_pot_direction_only.
+
+Theorem closed_forms_rigid : forall a b c d : R, a*a + b*b + c*c + d*d = 1 -> forall (Ro sg : R) (q r0 r : rv),
+  homog_closed ROps_c01 Ro sg (qrot a b c d q) (qrot a b c d r0) (qrot a b c d r) = homog_closed ROps_c01 Ro sg q r0 r /\
+  infinite_pot ROps_c01 sg (qrot a b c d q) (qrot a b c d r0) (qrot a b c d r) = infinite_pot ROps_c01 sg q r0 r.
+Proof. exact (fun a b c d U Ro sg q r0 r => conj (homog_closed_rot a b c d U Ro sg q r0 r) (infinite_pot_rot a b c d U sg q r0 r)). Qed.
+Print Assumptions closed_forms_rigid.
+
 (* hypotheses are satisfiable: a rotation that is not the identity, a source inside the sensor sphere *)
 Example rotation_exists : (1/2)*(1/2) + (1/2)*(1/2) + (1/2)*(1/2) + (1/2)*(1/2) = 1 /\
   qrot (1/2) (1/2) (1/2) (1/2) (V3 1 0 0) = V3 0 1 0.
